@@ -124,21 +124,49 @@ Theorem T18_2_env_depends_on_binding_set : forall l l' a,
 Proof. exact env_same_binds. Qed.
 Print Assumptions T18_2_env_depends_on_binding_set.
 
-(* sorting a run of import statements (_sort_import_statements) *)
-Theorem T18_2_sort_partial : forall l a, coherent l = true -> env (sort_stmts l) a = env l a.
+(* sorting a run of import statements (_sort_import_statements, repaired by cc67280): FULL -- for EVERY list of
+   import statements the environment is unchanged, because the rule leaves a run alone exactly when
+   fixes._import_order_matters says its order could matter (a star import, or a name bound by two aliases;
+   `import os.path` + `import os` count as two bindings of os).  Underneath: a permutation of bindings with
+   pairwise distinct bound names yields the same environment. *)
+Theorem T18_2_perm_distinct_names : forall B B' a,
+  has_dup (map fst B) = false -> Permutation.Permutation B' B -> lookup_last B' a = lookup_last B a.
+Proof. exact perm_distinct_names_env. Qed.
+Print Assumptions T18_2_perm_distinct_names.
+Theorem T18_2_sort : forall l a, env (sort_stmts l) a = env l a.
 Proof. exact sort_stmts_env. Qed.
-Print Assumptions T18_2_sort_partial.
-Theorem T18_2_sort_refuted : exists l a, env (sort_stmts l) a <> env l a.
-Proof. exact sort_stmts_refuted. Qed.
-Print Assumptions T18_2_sort_refuted.
+Print Assumptions T18_2_sort.
+(* the rule before the repair (every run is sorted), pinned: refuted, and true under the coherence guard *)
+Theorem T18_2_old_sort_refuted : exists l a, env (old_sort_stmts l) a <> env l a.
+Proof. exact old_sort_stmts_refuted. Qed.
+Print Assumptions T18_2_old_sort_refuted.
+Theorem T18_2_old_sort_partial : forall l a, coherent l = true -> env (old_sort_stmts l) a = env l a.
+Proof. exact old_sort_stmts_env. Qed.
+Print Assumptions T18_2_old_sort_partial.
 
-(* sorting / normalising the aliases inside a statement (_fix_imported_as_self_or_unsorted) *)
-Theorem T18_2_sort_aliases_partial : forall l a, coherent l = true -> env (sort_aliases l) a = env l a.
+(* sorting / normalising the aliases inside a statement (_fix_imported_as_self_or_unsorted, repaired by 95f12ea):
+   FULL -- a statement two of whose aliases bind one name keeps its order *)
+Theorem T18_2_sort_aliases : forall l a, env (sort_aliases l) a = env l a.
 Proof. exact sort_aliases_env. Qed.
-Print Assumptions T18_2_sort_aliases_partial.
-Theorem T18_2_sort_aliases_refuted : exists l a, env (sort_aliases l) a <> env l a.
-Proof. exact sort_aliases_refuted. Qed.
-Print Assumptions T18_2_sort_aliases_refuted.
+Print Assumptions T18_2_sort_aliases.
+Theorem T18_2_old_sort_aliases_refuted : exists l a, env (old_sort_aliases l) a <> env l a.
+Proof. exact old_sort_aliases_refuted. Qed.
+Print Assumptions T18_2_old_sort_aliases_refuted.
+Theorem T18_2_old_sort_aliases_partial : forall l a, coherent l = true -> env (old_sort_aliases l) a = env l a.
+Proof. exact old_sort_aliases_env. Qed.
+Print Assumptions T18_2_old_sort_aliases_partial.
+
+(* fixes.sort_imports as a whole (alias sort after statement sort): FULL *)
+Theorem T18_2_sort_imports : forall l a, env (sort_aliases (sort_stmts l)) a = env l a.
+Proof. exact sort_imports_env. Qed.
+Print Assumptions T18_2_sort_imports.
+
+(* the bound name of the guard is Python's `alias.asname or alias.name.split(".")[0]` on every alias Python can
+   write *)
+Theorem T18_2_guard_bound_name : forall al, wf_ialias al = true ->
+  ibound al = match ias al with Some a => a | None => ihead al end.
+Proof. exact ibound_raw. Qed.
+Print Assumptions T18_2_guard_bound_name.
 
 (* merging from-imports of one module (_fix_duplicate_from_imports) *)
 Theorem T18_2_merge_partial : forall l a, coherent l = true -> env (dup_from l) a = env l a.
@@ -195,13 +223,24 @@ Proof. exact redirect_example. Qed.
 
 Example T18_example_coherent :
   coherent coherent_example = true /\
-  sort_stmts coherent_example <> coherent_example /\
+  order_matters coherent_example = true /\ sort_stmts coherent_example = coherent_example /\
   dup_from coherent_example <> coherent_example /\
   dup_regular coherent_example <> coherent_example /\
   breakout coherent_example <> coherent_example /\
-  sort_aliases coherent_example <> coherent_example /\
   remove_unused [2; 12] coherent_example <> coherent_example.
 Proof. exact coherent_example_ok. Qed.
+
+(* the repaired sort rules still sort where they may (statements and aliases move), and leave the witnesses of
+   the old rules alone *)
+Example T18_example_sort :
+  order_matters sort_example = false /\
+  sort_stmts sort_example = [SImport [(10, Some 10, 10, true)]; SFrom false 0 [(2, Some 14)]; SFrom false 4 [(6, None); (2, Some 8)]] /\
+  sort_aliases (sort_stmts sort_example) =
+    [SImport [(10, None, 10, true)]; SFrom false 0 [(2, Some 14)]; SFrom false 4 [(2, Some 8); (6, None)]].
+Proof. exact sort_example_ok. Qed.
+Example T18_example_sort_refuses :
+  sort_stmts sort_witness = sort_witness /\ sort_aliases alias_witness = alias_witness.
+Proof. exact (conj sort_stmts_witness_kept sort_aliases_witness_kept). Qed.
 
 Example T18_example_structural :
   topo_ok ex_graph = true /\ no_dotted ex_graph = true /\ froms_found (S (length ex_graph)) ex_graph = true /\
